@@ -576,6 +576,18 @@ def run_prop(ctx, prop, focuses):
         out.rule = "replay: the stuck-sibling probe is re-run"
         m1_threads.stuck_sibling_probe(ctx, out, {prop}, 4)
         return out
+    if ctx.replay and ctx.replay.get("case", {}).get("kind") == "native-stuck-sibling-process":
+        from . import m1_threads
+        out = Result()
+        out.rule = "replay: the process-backend stuck-sibling probe is re-run"
+        m1_threads.stuck_sibling_process_probe(ctx, out, {prop}, 8)
+        return out
+    if ctx.replay and ctx.replay.get("case", {}).get("kind") == "native-shutdown-fault":
+        from . import m1_threads
+        out = Result()
+        out.rule = "replay: the shutdown-fault probe is re-run"
+        m1_threads.shutdown_fault_probe(ctx, out, {prop}, 16)
+        return out
     if ctx.replay and ctx.replay.get("case", {}).get("instr"):
         sc = Scenario.from_json(ctx.replay["case"])
         out = Result()
@@ -603,6 +615,8 @@ def run_prop(ctx, prop, focuses):
             m1_threads.legacy_backend_probe(ctx, out, {prop}, 24)
             m1_threads.exception_kind_probe(ctx, out, {prop}, 24)
             m1_threads.stuck_sibling_probe(ctx, out, {prop}, 8)
+            m1_threads.stuck_sibling_process_probe(ctx, out, {prop}, 8)
+            m1_threads.shutdown_fault_probe(ctx, out, {prop}, 16)
         return out
     rs = [explore(ctx, {prop}, 2400 // len(focuses), f"quick-{f}", f) for f in focuses]
     out = merge(rs)
@@ -619,6 +633,8 @@ def run_prop(ctx, prop, focuses):
         m1_threads.legacy_backend_probe(ctx, out, {prop}, 8)
         m1_threads.exception_kind_probe(ctx, out, {prop}, 12)
         m1_threads.stuck_sibling_probe(ctx, out, {prop}, 3)
+        m1_threads.stuck_sibling_process_probe(ctx, out, {prop}, 8)
+        m1_threads.shutdown_fault_probe(ctx, out, {prop}, 16)
     return out
 
 
